@@ -5,6 +5,8 @@ coq/theories/Gen/C04Consts.v (regenerated on every run; fails loudly on anything
                                     TimeMacroFinder::find_macros (in source order)
   src/compiler/preprocessor_cache.rs  MAX_PREPROCESSOR_CACHE_ENTRIES, MAX_PREPROCESSOR_CACHE_FILE_INFO_ENTRIES,
                                     CACHED_ENV_VARS (the allow-list of the preprocessor-cache key)
+  src/compiler/c.rs                 generate_hash_key: the source order of "take the start instant", "run the
+                                    preprocessor", "record the includes" (emitted as data: prelude_order)
 """
 import os
 import re
@@ -63,6 +65,33 @@ def generate(repo, out_path):
     if re.sub(r'"[A-Za-z0-9_]+"\s*,?', '', lst_nc).strip() or not env_pp:
         raise ValueError('CACHED_ENV_VARS: unrecognised list syntax: %r' % lst_nc[:200])
 
+    # ---- order of the three steps of the direct-mode prelude in generate_hash_key (src/compiler/c.rs) ----
+    # 0 = the compile start instant is taken, 1 = the preprocessor is run, 2 = the includes are recorded
+    # (process_preprocessed_file / add_result, both with that instant).  The ORDER FOUND is emitted; that it is
+    # [0; 1; 2] is a proof obligation (Proofs/PpTimeline.v prelude_order_ok), not something checked here.
+    crs = open(os.path.join(repo, 'src/compiler/c.rs'), encoding='utf-8').read()
+    m = re.search(r'async fn generate_hash_key\(.*?\n    \}\n', crs, re.S)
+    if not m:
+        raise ValueError('generate_hash_key not found in src/compiler/c.rs')
+    body = re.sub(r'//[^\n]*', '', m.group(0))
+    takes = [x.start() for x in re.finditer(r'let\s+(?:mut\s+)?start_of_compilation\s*=\s*(?:std::time::)?SystemTime::now\(\)\s*;', body)]
+    if len(takes) != 1:
+        raise ValueError('generate_hash_key: expected exactly one `let start_of_compilation = SystemTime::now();`, found %d' % len(takes))
+    if len(re.findall(r'start_of_compilation\s*=[^=]', body)) != 1:
+        raise ValueError('generate_hash_key: start_of_compilation is assigned more than once')
+    if len(re.findall(r'SystemTime::now\(\)', body)) != 1:
+        raise ValueError('generate_hash_key: another SystemTime::now() besides start_of_compilation')
+    pps = [x.start() for x in re.finditer(r'\.preprocess\(', body)]
+    if len(pps) != 1:
+        raise ValueError('generate_hash_key: expected exactly one call of compiler.preprocess(..), found %d' % len(pps))
+    rec1 = re.search(r'process_preprocessed_file\((.*?)\)\?', body, re.S)
+    rec2 = re.search(r'\.add_result\(\s*start_of_compilation\s*,', body)
+    if not rec1 or 'start_of_compilation' not in rec1.group(1) or not rec2:
+        raise ValueError('generate_hash_key: process_preprocessed_file / add_result are not called with start_of_compilation')
+    if rec2.start() < rec1.start():
+        raise ValueError('generate_hash_key: add_result before process_preprocessed_file')
+    order = [c for _, c in sorted([(takes[0], 0), (pps[0], 1), (rec1.start(), 2)])]
+
     n_res = _int_expr(_one(r'const MAX_PREPROCESSOR_CACHE_ENTRIES: usize = ([^;]+);', pp, 'MAX_PREPROCESSOR_CACHE_ENTRIES'))
     n_inc = _int_expr(_one(r'const MAX_PREPROCESSOR_CACHE_FILE_INFO_ENTRIES: usize = ([^;]+);', pp,
                            'MAX_PREPROCESSOR_CACHE_FILE_INFO_ENTRIES'))
@@ -81,17 +110,21 @@ Definition max_pp_cache_entries : N := %d.
 Definition max_pp_cache_file_info_entries : N := %d.
 (* CACHED_ENV_VARS of preprocessor_cache.rs: %s *)
 Definition pp_cached_env_vars : list (list N) := [%s].
+(* generate_hash_key (c.rs): source order of  0 = `let start_of_compilation = SystemTime::now()`,
+   1 = `compiler.preprocess(..)`,  2 = process_preprocessed_file(.., start_of_compilation, ..) / add_result *)
+Definition prelude_order : list N := [%s].
 ''' % (buf, hay_len,
        _coq_bytes(flags['found_timestamp'].encode()), flags['found_timestamp'],
        _coq_bytes(flags['found_time'].encode()), flags['found_time'],
        _coq_bytes(flags['found_date'].encode()), flags['found_date'],
-       n_res, n_inc, ' '.join(env_pp), ';\n  '.join(_coq_bytes(e.encode()) for e in env_pp))
+       n_res, n_inc, ' '.join(env_pp), ';\n  '.join(_coq_bytes(e.encode()) for e in env_pp),
+       '; '.join(str(c) for c in order))
     os.makedirs(os.path.dirname(out_path), exist_ok=True)
     old = open(out_path).read() if os.path.exists(out_path) else None
     if old != txt:
         open(out_path, 'w').write(txt)
     return dict(hash_buffer_size=buf, max_haystack_len=hay_len, patterns=flags, max_results=n_res, max_includes=n_inc,
-                env_pp=env_pp)
+                env_pp=env_pp, prelude_order=order)
 
 
 if __name__ == '__main__':
